@@ -567,7 +567,7 @@ class Py2Cpp(ITranspiler):
 		for index, statement in enumerate(node.statements):
 			if statement in this_var_declares:
 				initializer_indexs.append(index)
-			elif isinstance(statement, defs.FuncCall) and statement.calls.tokens.endswith('__init__'):
+			elif isinstance(statement, defs.FuncCall) and statement.calls.tokens.split('.')[-1] == '__init__':
 				initializer_index_of_super = index
 
 		class_name = self.to_domain_name_by_class(node.class_types)
